@@ -35,7 +35,7 @@ ASSUMPTIONS = [
     "reference stream interpreter B3 in this file (DESIGN.md Appendix B3) decides accept / reject / not-done and the resulting content",
     "TTLs are a function of (owner, type) so RRset TTLs do not change between versions",
 ]
-REQUIRED = ["mon.faulted_via_socket_loop", "mon.via_socket_loop", "mon.via_socket_loop_udp", "mon.via_socket_loop_async", "mon.valid_transfer_converges", "mon.faulted_transfer", "mon.error_leaves_zone_untouched", "mon.must_reject_classes", "mon.notdone_leaves_zone_untouched"]
+REQUIRED = ["mon.transferred_zone_form", "mon.faulted_via_socket_loop", "mon.via_socket_loop", "mon.via_socket_loop_udp", "mon.via_socket_loop_async", "mon.valid_transfer_converges", "mon.faulted_transfer", "mon.error_leaves_zone_untouched", "mon.must_reject_classes", "mon.notdone_leaves_zone_untouched"]
 BUDGET = {"quick": 45.0, "thorough": 480.0}
 
 FACTORIES = [("plain", dns.zone.Zone), ("versioned", dns.versioned.Zone), ("btree", dns.btreezone.Zone)]
@@ -64,8 +64,13 @@ def gen_chain(rng):
 
     def rr():
         o = rng.choice(owners)
-        t = rng.choice(("A", "A", "TXT", "MX", "AAAA", "RRSIG"))
-        text = {"A": f"10.{rng.randrange(4)}.0.{rng.randrange(1, 6)}", "TXT": f'"t{rng.randrange(6)}"', "MX": f"{rng.randrange(3) * 10} mx{rng.randrange(3)}.example.", "AAAA": f"2001:db8::{rng.randrange(1, 6):x}",
+        t = rng.choice(("A", "A", "TXT", "MX", "AAAA", "RRSIG", "SRV", "NS", "CNAME-LIKE"))
+        if t == "NS" and o == "example.":
+            t = "A"
+        if t == "CNAME-LIKE":
+            t = "PTR"
+        text = {"SRV": f"{rng.randrange(3)} 5 {rng.choice((80, 443))} srv{rng.randrange(3)}.{rng.choice(('example.', 'sub.example.', 'elsewhere.test.'))}", "NS": f"ns{rng.randrange(3)}.{o}",
+                "PTR": f"p{rng.randrange(3)}.example.","A": f"10.{rng.randrange(4)}.0.{rng.randrange(1, 6)}", "TXT": f'"t{rng.randrange(6)}"', "MX": f"{rng.randrange(3) * 10} mx{rng.randrange(3)}.example.", "AAAA": f"2001:db8::{rng.randrange(1, 6):x}",
                 # signatures: one record set per covered type at a name; a re-signing diff deletes and adds them
                 "RRSIG": f"{rng.choice(('A', 'TXT', 'MX'))} 8 2 300 20300101000000 20200101000000 {rng.randrange(1, 4)} example. q83v"}[t]
         return (o, t, ttl_for(o, t), text)
@@ -263,6 +268,29 @@ def zone_fp(z):
     return c, vids
 
 
+def form_of(z):
+    """the zone as its user sees it, names as stored: {owner text: {(type, covers): frozenset(rdata text)}} -- in a relativized
+    zone owners AND the names inside records are relative to the origin, in an absolute one neither is"""
+    out = {}
+    for name, node in z.nodes.items():
+        d = out.setdefault(name.to_text().lower(), {})
+        for rds in node.rdatasets:
+            d[(int(rds.rdtype), int(rds.covers))] = frozenset(rd.to_text().lower() for rd in rds)
+    return out
+
+
+def check_form(ctx, z, relativize, recs, serial, how, tag, case):
+    """after a transfer that was applied: the zone is the one a zone-file load of the server's records would have given,
+    names inside records included"""
+    ctx.count("mon.transferred_zone_form")
+    zref = build_zone(dns.zone.Zone, relativize, recs, serial)
+    got, want = form_of(z), form_of(zref)
+    if got != want:
+        bad = sorted(k for k in set(got) | set(want) if got.get(k) != want.get(k))[:3]
+        detail = "; ".join(f"{k}: {sorted(map(sorted, got.get(k, {}).values()))} vs {sorted(map(sorted, want.get(k, {}).values()))}" for k in bad)
+        ctx.violation(f"transferred-zone-names-not-in-the-zone's-form:{'relativized' if relativize else 'absolute'}:{how}", f"{tag}: {detail[:600]}", case)
+
+
 def content_of(recs, serial):
     out = {}
     for o, t, ttl, text in list(recs) + [soa(serial)]:
@@ -332,6 +360,8 @@ def run_transfer(ctx, zname, factory, relativize, z0, s0, kind, is_udp, msgs, fa
         want = before[0] if ref[1] is None else content_of(ref[1], ref[2])
         if after[0] != want:
             ctx.violation(f"transfer-result-differs-from-server-zone:{fault[0] if fault else 'valid'}:{kind}", f"{tag}: {diffc(after[0], want)}", case)
+        elif ref[1] is not None:
+            check_form(ctx, z, relativize, ref[1], ref[2], kind, tag, case)
         return
     # not done, no error
     ctx.count("mon.notdone_leaves_zone_untouched")
@@ -627,6 +657,8 @@ def _run_via_query(ctx, rng, zname, relativize, z, before, ref, key, q, kind, ms
         want = before[0] if ref[1] is None else content_of(ref[1], ref[2])
         if after[0] != want:
             ctx.violation("transfer-result-differs-from-server-zone:via-socket-loop", f"{tag}: {diffc(after[0], want)}", case)
+        elif ref[1] is not None:
+            check_form(ctx, z, relativize, ref[1], ref[2], "via-socket-loop", tag, case)
     elif after[0] != before[0]:
         ctx.violation(f"malformed-stream-accepted:via-socket-loop:{ref[1] if len(ref) > 1 else ref[0]}", tag, case)
     else:
